@@ -35,7 +35,7 @@ SMALL_ALPHA = ["t", "p", "--name", "-n", "-u5", "--name=x", "x", "-f", "--", "-f
 class C07(Prop):
     id = "C07"
     corr_module = "Corr.C07Corr"
-    preds = ("corr", "spec", "only_b2")
+    preds = ("corr", "spec")
     quick_n = 5000
     thorough_n = 40000
     shard_size = 160
@@ -154,41 +154,13 @@ class C07(Prop):
                                    ",remainder" if o["remainder"] else "")
 
     def finding_of(self, case, obs, verdict=None):
-        if case["kind"] != "parse":
-            return None
-        # Coq-side clause predicate: the clause that fails is B2 and only B2
-        if verdict is not None and not verdict.get("only_b2", True):
-            return None
-        specs = [] if case.get("noctx") else pc.ctx_specs(case["sigs"])
-        init_spec = pc.initial_spec(case["initial"])
-        # (F-C07a, ValueError from int(), was repaired in /repo by 401bc73: a ValueError
-        #  escaping parse_argv is no longer attributable to anything -> VIOLATION)
-        # (F-C07b, AttributeError without initial context, was repaired by e36c9e6: no longer
-        #  attributable -> VIOLATION)
-        if "ok" in obs:
-            # F-C07c / F-C07d: the failing clause must be B2 ("value-requiring flag left without
-            # a value"): the outcome class is fine (A), no returned context lacks a positional
-            # (B1), and the last body token is literally a value flag of the last context.
-            o = obs["ok"]
-            body = pc.body_of(case["argv"])
-            for name, kw in o["ctxs"]:
-                c = pc.spec_by_name(specs, init_spec, name)
-                if c is None:
-                    continue
-                vals = dict((k, v) for k, v in kw)
-                for a in c["args"]:
-                    if a["positional"] and vals.get(a["attr_name"] or a["names"][0], 0) is None:
-                        return None
-            if body and o["ctxs"] and not o["unparsed"]:
-                c = pc.spec_by_name(specs, init_spec, o["ctxs"][-1][0])
-                a = pc.arg_of_flag(c, body[-1]) if c else None
-                if a and pc.takes_value(a) and not a["optional"]:
-                    if a["kind"] == "KList":
-                        return "F-C07c"
-                    # F-C07d: the argument already holds a value (earlier flag or positional)
-                    val = dict((k, v) for k, v in o["ctxs"][-1][1]).get(a["attr_name"] or a["names"][0])
-                    if val is not None:
-                        return "F-C07d"
+        # No open finding is attributable to C07 any more -- every disagreement with the
+        # executable specification is a VIOLATION:
+        #  F-C07a (ValueError from int() escaping parse_argv)            repaired by 401bc73
+        #  F-C07b (AttributeError without initial context)              repaired by e36c9e6
+        #  F-C07c / F-C07d (value flag left without a value accepted when its argument is a list
+        #  or already holds a value; clause B2)                         repaired by 9120dc5
+        # Their witnesses stay in corpus/C07/witnesses.json, so a revert is reported.
         return None
 
     def shrink_candidates(self, case):
